@@ -1,4 +1,6 @@
 """C02 — identifiers: txid ignores witness, wtxid covers it, block hash = header hash; mutable == immutable."""
+import itertools
+
 from hypothesis import strategies as st
 
 from ..runner import Violation, digest, unexpected
@@ -86,6 +88,26 @@ def check_tx(case):
             if o.has_witness() != nonempty:
                 raise Violation('tx/has_witness', 'has_witness()=%s, expected %s (variant %r)' % (o.has_witness(), nonempty, name))
         _pair_checks('tx', a, b, full)
+        # the same five observations on FRESH objects in a case-chosen order: no reading may colour a later one (e.g. the
+        # witness-stripped serialisation requested before the witness hash, or hash() before GetTxid())
+        perm = list(itertools.permutations(('ser', 'ser-stripped', 'gethash', 'gettxid', 'pyhash')))[(case.get('order', 0) + len(seen_hash)) % 120]
+        for mutable in (False, True):
+            o = libx.mk_tx(m, mutable)
+            for op in perm:
+                if op == 'ser':
+                    ok = libx.call('tx/serialize', o.serialize)[1] == full
+                elif op == 'ser-stripped':
+                    ok = libx.call('tx/serialize-stripped', o.serialize, {'include_witness': False})[1] == stripped
+                elif op == 'gethash':
+                    ok = libx.call('tx/gethash', o.GetHash)[1] == H.dsha(full)
+                elif op == 'gettxid':
+                    ok = libx.call('tx/gettxid', o.GetTxid)[1] == want_txid
+                else:
+                    ok = hash(o) == hash(full)
+                if not ok:
+                    raise Violation('tx/order-%s' % op, '%s tx (variant %r): %s is wrong when the readings are taken in the order %s' % (
+                        'mutable' if mutable else 'immutable', name, op, ' > '.join(perm)))
+        evals += 10
         # deserialised objects report the same ids (cached vs uncached path)
         d = CTransaction.deserialize(full)
         if d.GetTxid() != want_txid or d.GetHash() != H.dsha(full) or not (d == a) or hash(d) != hash(a):
@@ -197,7 +219,7 @@ def s_tx(draw):
                      st.tuples(st.just('seq'), st.integers(0, 7), gen.u32),
                      st.tuples(st.just('scriptsig'), st.integers(0, 7), st.binary(max_size=5).map(bytes.hex)),
                      st.tuples(st.just('addout'), st.integers(0, 10 ** 9)), st.tuples(st.just('wit'), st.integers(0, 6)))
-    return {'kind': 'tx', 'tx': t, 'wits': [['A', A], ['B', B], ['A-flipped', F], ['last-only-empty-item', last_only]],
+    return {'kind': 'tx', 'tx': t, 'order': draw(st.integers(0, 119)), 'wits': [['A', A], ['B', B], ['A-flipped', F], ['last-only-empty-item', last_only]],
             'edits': [list(e) for e in draw(st.lists(edit, min_size=1, max_size=4))]}
 
 
